@@ -1,7 +1,689 @@
-//! Read-path operations and their oracles (filled in per property family).
+//! Read-path operations and their oracles (C08–C11, C13–C16, C28).
+use crate::model::{Model, St};
 use crate::ops::*;
 use crate::world::World;
+use memvid_core::{Memvid, SearchRequest, SearchResponse, TimelineQuery};
+use std::collections::{BTreeMap, BTreeSet};
 
-pub fn exec_read(_w: &mut World, _i: usize, _op: &Op) -> (bool, bool, Option<String>) {
-    (false, true, None)
+fn errs(e: &memvid_core::MemvidError) -> String {
+    format!("{e}").chars().take(160).collect()
+}
+
+pub fn request_of(s: &SearchSpec) -> SearchRequest {
+    SearchRequest {
+        query: s.query.clone(),
+        top_k: s.top_k,
+        snippet_chars: s.snippet_chars,
+        uri: s.uri.clone(),
+        scope: s.scope.clone(),
+        cursor: None,
+        as_of_frame: s.as_of_frame,
+        as_of_ts: s.as_of_ts,
+        no_sketch: s.no_sketch,
+        acl_context: None,
+        acl_enforcement_mode: Default::default(),
+    }
+}
+
+/// Minimal boolean query language used by the generator: the reference semantics the property
+/// states (substring words/phrases, NOT > AND > OR, case-insensitive field terms).
+#[derive(Clone, Debug)]
+pub enum Q {
+    Word(String),
+    Phrase(String),
+    Tag(String),
+    Track(String),
+    And(Vec<Q>),
+    Or(Vec<Q>),
+    Not(Box<Q>),
+}
+
+impl Q {
+    pub fn print(&self) -> String {
+        match self {
+            Q::Word(w) => w.clone(),
+            Q::Phrase(p) => format!("\"{p}\""),
+            Q::Tag(t) => format!("tag:{t}"),
+            Q::Track(t) => format!("track:{t}"),
+            Q::And(v) => format!("({})", v.iter().map(|q| q.print()).collect::<Vec<_>>().join(" AND ")),
+            Q::Or(v) => format!("({})", v.iter().map(|q| q.print()).collect::<Vec<_>>().join(" OR ")),
+            Q::Not(q) => format!("NOT {}", q.print()),
+        }
+    }
+    pub fn eval(&self, text_lower: &str, tags: &[String], track: Option<&str>) -> bool {
+        match self {
+            Q::Word(w) | Q::Phrase(w) => text_lower.contains(&w.to_ascii_lowercase()),
+            Q::Tag(t) => tags.iter().any(|x| x.eq_ignore_ascii_case(t)),
+            Q::Track(t) => track.is_some_and(|x| x.eq_ignore_ascii_case(t)),
+            Q::And(v) => v.iter().all(|q| q.eval(text_lower, tags, track)),
+            Q::Or(v) => v.iter().any(|q| q.eval(text_lower, tags, track)),
+            Q::Not(q) => !q.eval(text_lower, tags, track),
+        }
+    }
+    pub fn has_positive_text(&self) -> bool {
+        match self {
+            Q::Word(_) | Q::Phrase(_) => true,
+            Q::Tag(_) | Q::Track(_) => false,
+            Q::And(v) | Q::Or(v) => v.iter().any(|q| q.has_positive_text()),
+            Q::Not(q) => q.has_positive_text(),
+        }
+    }
+}
+
+/// Parse the generator's own printed form back (only what `print` emits).
+pub fn parse_q(s: &str) -> Option<Q> {
+    let toks = lex(s);
+    let mut i = 0;
+    let q = parse_or(&toks, &mut i)?;
+    if i == toks.len() { Some(q) } else { None }
+}
+fn lex(s: &str) -> Vec<String> {
+    let mut out = Vec::new();
+    let cs: Vec<char> = s.chars().collect();
+    let mut i = 0;
+    while i < cs.len() {
+        let c = cs[i];
+        if c.is_whitespace() {
+            i += 1;
+        } else if c == '(' || c == ')' {
+            out.push(c.to_string());
+            i += 1;
+        } else if c == '"' {
+            let mut j = i + 1;
+            while j < cs.len() && cs[j] != '"' {
+                j += 1;
+            }
+            out.push(cs[i..(j + 1).min(cs.len())].iter().collect());
+            i = j + 1;
+        } else {
+            let mut j = i;
+            while j < cs.len() && !cs[j].is_whitespace() && cs[j] != '(' && cs[j] != ')' {
+                j += 1;
+            }
+            out.push(cs[i..j].iter().collect());
+            i = j;
+        }
+    }
+    out
+}
+fn parse_or(t: &[String], i: &mut usize) -> Option<Q> {
+    let mut v = vec![parse_and(t, i)?];
+    while *i < t.len() && t[*i] == "OR" {
+        *i += 1;
+        v.push(parse_and(t, i)?);
+    }
+    Some(if v.len() == 1 { v.pop().unwrap() } else { Q::Or(v) })
+}
+fn parse_and(t: &[String], i: &mut usize) -> Option<Q> {
+    let mut v = vec![parse_not(t, i)?];
+    loop {
+        if *i < t.len() && t[*i] == "AND" {
+            *i += 1;
+            v.push(parse_not(t, i)?);
+        } else if *i < t.len() && t[*i] != "OR" && t[*i] != ")" {
+            v.push(parse_not(t, i)?); // implicit AND
+        } else {
+            break;
+        }
+    }
+    Some(if v.len() == 1 { v.pop().unwrap() } else { Q::And(v) })
+}
+fn parse_not(t: &[String], i: &mut usize) -> Option<Q> {
+    if *i < t.len() && t[*i] == "NOT" {
+        *i += 1;
+        return Some(Q::Not(Box::new(parse_not(t, i)?)));
+    }
+    let tok = t.get(*i)?.clone();
+    *i += 1;
+    if tok == "(" {
+        let q = parse_or(t, i)?;
+        if t.get(*i).map(|s| s.as_str()) != Some(")") {
+            return None;
+        }
+        *i += 1;
+        Some(q)
+    } else if tok.starts_with('"') {
+        Some(Q::Phrase(tok.trim_matches('"').to_string()))
+    } else if let Some(x) = tok.strip_prefix("tag:") {
+        Some(Q::Tag(x.to_string()))
+    } else if let Some(x) = tok.strip_prefix("track:") {
+        Some(Q::Track(x.to_string()))
+    } else {
+        Some(Q::Word(tok))
+    }
+}
+
+fn whole_word(text_lower: &str, w: &str) -> bool {
+    let w = w.to_ascii_lowercase();
+    let bytes = text_lower.as_bytes();
+    let mut from = 0;
+    while let Some(p) = text_lower[from..].find(&w) {
+        let s = from + p;
+        let e = s + w.len();
+        let left_ok = s == 0 || !bytes[s - 1].is_ascii_alphanumeric();
+        let right_ok = e >= bytes.len() || !bytes[e].is_ascii_alphanumeric();
+        if left_ok && right_ok {
+            return true;
+        }
+        from = s + 1;
+        if from >= text_lower.len() {
+            break;
+        }
+    }
+    false
+}
+
+pub type HitKey = (u64, (usize, usize));
+
+fn keys(r: &SearchResponse) -> Vec<HitKey> {
+    r.hits.iter().map(|h| (h.frame_id, h.range)).collect()
+}
+
+/// Follow next_cursor until it is absent.
+fn paged(mem: &mut Memvid, spec: &SearchSpec, page: usize) -> Result<(Vec<HitKey>, Vec<usize>, usize), String> {
+    let mut out = Vec::new();
+    let mut totals = Vec::new();
+    let mut cursor: Option<String> = None;
+    let mut pages = 0;
+    loop {
+        let mut rq = request_of(spec);
+        rq.top_k = page;
+        rq.cursor = cursor.clone();
+        let r = mem.search(rq).map_err(|e| errs(&e))?;
+        totals.push(r.total_hits);
+        out.extend(keys(&r));
+        pages += 1;
+        match r.next_cursor {
+            Some(c) if pages < 400 => cursor = Some(c),
+            Some(_) => return Err("cursor chain did not end within 400 pages".into()),
+            None => break,
+        }
+    }
+    Ok((out, totals, pages))
+}
+
+pub fn exec_read(w: &mut World, i: usize, op: &Op) -> (bool, bool, Option<String>) {
+    if w.mem.is_none() {
+        return (false, true, None);
+    }
+    // take the handle out of the world for the duration of the call (the oracles need both)
+    let mut mem = w.mem.take().unwrap();
+    let r = match op {
+        Op::Search(spec) => exec_search(w, &mut mem, i, spec),
+        Op::Timeline(spec) => exec_timeline(w, &mut mem, i, spec),
+        Op::SearchVec { q, k } => exec_vec(w, &mut mem, i, q, *k),
+        _ => (false, true, None),
+    };
+    w.mem = Some(mem);
+    r
+}
+
+fn committed_clean(m: &Model) -> bool {
+    m.pending.is_empty() && !m.unpredictable
+}
+
+fn exec_search(w: &mut World, mem: &mut Memvid, i: usize, spec: &SearchSpec) -> (bool, bool, Option<String>) {
+    let model = w.model.clone();
+    let ro = w.ro;
+    let mut v: Vec<(Vec<&'static str>, &'static str, String)> = Vec::new();
+    let mut recall_sig = "";
+    let mut filter_sig = "";
+    let resp = match mem.search(request_of(spec)) {
+        Ok(r) => r,
+        Err(e) => {
+            // an error is a legal answer for malformed queries; the generator only emits well-formed ones
+            let msg = errs(&e);
+            if !msg.contains("Lex") {
+                v.push((vec!["C10"], "search-runs", format!("search({:?}) failed: {msg}", spec.query)));
+            }
+            for (p, o, m) in v {
+                w.viol(&p, o, m, i);
+            }
+            return (false, false, Some(msg));
+        }
+    };
+    w.probes_extra("searches", 1);
+    if !resp.hits.is_empty() {
+        w.probes_extra("searches_with_hits", 1);
+    }
+    let q = parse_q(&spec.query);
+    let pending_now = !model.pending.is_empty();
+    // ---- C10: every hit is a valid answer
+    if resp.hits.len() > spec.top_k.max(1) {
+        v.push((vec!["C10"], "hits-at-most-top-k", format!("{} hits for top_k={}", resp.hits.len(), spec.top_k)));
+    }
+    for (n, h) in resp.hits.iter().enumerate() {
+        if h.rank != n + 1 {
+            v.push((vec!["C10"], "ranks", format!("hit {} has rank {}", n, h.rank)));
+        }
+        let fr = match mem.frame_by_id(h.frame_id) {
+            Ok(f) => f,
+            Err(_) => {
+                v.push((vec!["C10", "C28"], "hit-frame-exists", format!("query {:?}: hit names frame {} which does not exist", spec.query, h.frame_id)));
+                continue;
+            }
+        };
+        if fr.status != memvid_core::FrameStatus::Active {
+            v.push((vec!["C10", "C08"], "hit-frame-active", format!("query {:?}: hit names frame {} with status {:?}", spec.query, h.frame_id, fr.status)));
+        }
+        if !pending_now && !model.unpredictable {
+            if let Some(mf) = model.frames.get(h.frame_id as usize) {
+                if mf.st != St::Active {
+                    v.push((vec!["C08"], "hit-frame-active-model", format!("query {:?}: hit names frame {} which the model has as {:?}", spec.query, h.frame_id, mf.st)));
+                }
+            }
+        }
+        // text / range consistency
+        if let (Some(cr), Some(ct)) = (h.chunk_range, h.chunk_text.as_ref()) {
+            if h.range.0 < cr.0 || h.range.1 > cr.1 || h.range.0 >= h.range.1 {
+                v.push((vec!["C10"], "range-inside-chunk", format!("frame {} range {:?} not inside chunk range {:?}", h.frame_id, h.range, cr)));
+            } else {
+                let ls = h.range.0 - cr.0;
+                let le = h.range.1 - cr.0;
+                match ct.get(ls..le) {
+                    Some(s) if s == h.text => {}
+                    _ => v.push((vec!["C10"], "text-at-range", format!("frame {} hit text is not the chunk content at its range {:?}", h.frame_id, h.range))),
+                }
+            }
+        }
+        let text = mem.frame_text_by_id(h.frame_id).unwrap_or_default();
+        let text_lower = text.to_ascii_lowercase();
+        if !h.text.is_empty() && !text.contains(h.text.as_str()) {
+            // chunk children are addressed through their parent's text; accept either
+            let in_chunk = h.chunk_text.as_ref().is_some_and(|c| c.contains(h.text.as_str()));
+            if !in_chunk {
+                v.push((vec!["C10"], "text-in-frame", format!("frame {} hit text {:?} does not occur in the frame's content", h.frame_id, h.text.chars().take(40).collect::<String>())));
+            }
+        }
+        if let Some(q) = &q {
+            if !q.eval(&text_lower, &fr.tags, fr.track.as_deref()) {
+                let props: Vec<&'static str> = if pending_now { vec!["C10", "C28"] } else { vec!["C10"] };
+                v.push((props, "hit-satisfies-query", format!("query {:?}: frame {} ({:?}) does not satisfy it (text {:?}…)", spec.query, h.frame_id, fr.uri, text_lower.chars().take(60).collect::<String>())));
+            }
+        }
+        if let Some(u) = &spec.uri {
+            let ok = fr.uri.as_deref().is_some_and(|x| if u.contains('#') { x.eq_ignore_ascii_case(u) } else { x.to_ascii_lowercase().starts_with(&u.to_ascii_lowercase()) });
+            if !ok {
+                v.push((vec!["C10"], "uri-filter", format!("uri filter {:?}: hit frame {} has uri {:?}", u, h.frame_id, fr.uri)));
+            }
+        } else if let Some(sc) = &spec.scope {
+            if !fr.uri.as_deref().is_some_and(|x| x.starts_with(sc.as_str())) {
+                v.push((vec!["C10"], "scope-filter", format!("scope {:?}: hit frame {} has uri {:?}", sc, h.frame_id, fr.uri)));
+            }
+        }
+        // ---- C11
+        if let Some(n) = spec.as_of_frame {
+            if h.frame_id > n {
+                v.push((vec!["C11"], "as-of-frame", format!("as_of_frame={n}: hit frame {}", h.frame_id)));
+            }
+        }
+        if let Some(t) = spec.as_of_ts {
+            if fr.timestamp > t {
+                v.push((vec!["C11"], "as-of-ts", format!("as_of_ts={t}: hit frame {} has timestamp {}", h.frame_id, fr.timestamp)));
+            }
+        }
+    }
+    // ---- C11: a time-travel filter never adds hits
+    if (spec.as_of_frame.is_some() || spec.as_of_ts.is_some()) && !resp.hits.is_empty() {
+        let mut base = spec.clone();
+        base.as_of_frame = None;
+        base.as_of_ts = None;
+        base.top_k = 10_000;
+        if let Ok(br) = mem.search(request_of(&base)) {
+            let bset: BTreeSet<u64> = br.hits.iter().map(|h| h.frame_id).collect();
+            for h in &resp.hits {
+                if !bset.contains(&h.frame_id) {
+                    // is the unfiltered search only missing it because of the sketch pre-filter?
+                    let mut b2 = base.clone();
+                    b2.no_sketch = true;
+                    if !base.no_sketch {
+                        if let Ok(r2) = mem.search(request_of(&b2)) {
+                            if r2.hits.iter().any(|x| x.frame_id == h.frame_id) {
+                                filter_sig = "sketch-prefilter-drops-match";
+                            }
+                        }
+                    }
+                    v.push((vec!["C11"], "filter-adds-hit", format!("query {:?}: frame {} returned with as_of filter but not without it", spec.query, h.frame_id)));
+                    break;
+                }
+            }
+            w.probes_extra("as_of_comparisons", 1);
+        }
+    }
+    // ---- C09: recall for single-word queries (committed state only: the statement is about
+    // the searchable text of active frames)
+    if let Some(Q::Word(word)) = &q {
+        if !pending_now && spec.uri.is_none() && spec.scope.is_none() && spec.as_of_frame.is_none() && spec.as_of_ts.is_none() {
+            let n = mem.frame_count() as u64;
+            let mut expected: Vec<u64> = Vec::new();
+            // weakest reading: a response's top_k counts snippet slices, so a frame that holds the
+            // word several times may use several slots; recall is asserted only when the word
+            // occurs exactly once in every frame that contains it
+            let mut once_each = true;
+            for id in 0..n {
+                if let Ok(f) = mem.frame_by_id(id) {
+                    if f.status != memvid_core::FrameStatus::Active {
+                        continue;
+                    }
+                    let t = mem.frame_text_by_id(id).unwrap_or_default().to_ascii_lowercase();
+                    if t.matches(&word.to_ascii_lowercase()).count() > 1 {
+                        once_each = false;
+                    }
+                    if whole_word(&t, word) {
+                        expected.push(id);
+                    }
+                }
+            }
+            if once_each && !expected.is_empty() && expected.len() <= spec.top_k {
+                let got: BTreeSet<u64> = resp.hits.iter().map(|h| h.frame_id).collect();
+                let missing: Vec<u64> = expected.iter().copied().filter(|id| !got.contains(id)).collect();
+                w.probes_extra("recall_checks", 1);
+                if !missing.is_empty() {
+                    // classify: is it the sketch pre-filter that dropped the matches?
+                    let mut by_sketch = false;
+                    if !spec.no_sketch {
+                        let mut alt = spec.clone();
+                        alt.no_sketch = true;
+                        if let Ok(r2) = mem.search(request_of(&alt)) {
+                            let got2: BTreeSet<u64> = r2.hits.iter().map(|h| h.frame_id).collect();
+                            by_sketch = expected.iter().all(|id| got2.contains(id));
+                        }
+                    }
+                    recall_sig = if by_sketch { "sketch-prefilter-drops-match" } else { "" };
+                    v.push((vec!["C09"], "recall", format!("query {:?} (top_k={}, no_sketch={}): {} of {} frames containing the word are missing from the hits: {:?}", word, spec.top_k, spec.no_sketch, missing.len(), expected.len(), missing.iter().take(6).collect::<Vec<_>>())));
+                }
+            }
+        }
+    }
+    // classification for C16 findings: does some matching frame hold the query word more than
+    // once (several snippet slices per document), or do more than 20 frames match (the engine's
+    // candidate limit depends on top_k and the cursor)?
+    let mut page_sig = "complex-query";
+    if let Some(Q::Word(word)) = &q {
+        let wl = word.to_ascii_lowercase();
+        let n = mem.frame_count() as u64;
+        let mut max_occ = 0usize;
+        let mut matching = 0usize;
+        for id in 0..n {
+            if let Ok(f) = mem.frame_by_id(id) {
+                if f.status != memvid_core::FrameStatus::Active {
+                    continue;
+                }
+                let t = mem.frame_text_by_id(id).unwrap_or_default().to_ascii_lowercase();
+                let occ = t.matches(&wl).count();
+                if occ > 0 {
+                    matching += 1;
+                    max_occ = max_occ.max(occ);
+                }
+            }
+        }
+        page_sig = if max_occ > 1 { "several-occurrences-per-frame" } else if matching > 20 { "more-than-20-matching-frames" } else { "" };
+    }
+    // ---- C16: pagination partitions the stream
+    if spec.as_of_frame.is_none() && spec.as_of_ts.is_none() && resp.total_hits > 0 && resp.total_hits <= 200 {
+        let page = 1 + (spec.snippet_chars % 10).min(9);
+        let mut big = spec.clone();
+        big.top_k = resp.total_hits.max(1) + 5;
+        match (mem.search(request_of(&big)), paged(mem, spec, page)) {
+            (Ok(bigr), Ok((pk, totals, pages))) => {
+                w.probes_extra("pagination_checks", 1);
+                if pages > 1 {
+                    w.probes_extra("pagination_multi_page", 1);
+                }
+                let bk = keys(&bigr);
+                if pk != bk {
+                    let d = pk.iter().zip(bk.iter()).position(|(a, b)| a != b).unwrap_or(pk.len().min(bk.len()));
+                    v.push((vec!["C16"], "pages-equal-single-request", format!("query {:?} page size {page}: {} hits over {pages} pages vs {} in one request; first difference at position {d}: {:?} vs {:?}", spec.query, pk.len(), bk.len(), pk.get(d), bk.get(d))));
+                }
+                let mut seen = BTreeSet::new();
+                for k in &pk {
+                    if !seen.insert(*k) {
+                        v.push((vec!["C16"], "page-repeats-hit", format!("query {:?} page size {page}: hit {:?} returned twice", spec.query, k)));
+                        break;
+                    }
+                }
+                if totals.iter().any(|t| *t != totals[0]) {
+                    v.push((vec!["C16"], "total-hits-constant", format!("query {:?}: total_hits varies across pages: {:?}", spec.query, totals)));
+                }
+            }
+            (Err(e), _) => v.push((vec!["C16"], "pagination-runs", format!("large request failed: {}", errs(&e)))),
+            (_, Err(e)) => v.push((vec!["C16"], "pagination-runs", format!("paging failed: {e}"))),
+        }
+    }
+    // ---- C28: the same query on the same committed state answers the same on every handle
+    if committed_clean(&model) {
+        let key = format!("{}|{}", model.digest(), serde_json::to_string(spec).unwrap_or_default());
+        let cur = keys(&resp);
+        let how = if ro { "read-only" } else if w.reopened_since_mutation { "reopened" } else { "live" };
+        match w.query_log.get(&key).cloned() {
+            Some((prev, prev_how)) => {
+                w.probes_extra("differential_compares", 1);
+                if prev != cur {
+                    v.push((vec!["C28"], "same-answer-across-handles", format!("query {:?}: {} handle returned {:?}, {} handle returned {:?}", spec.query, prev_how, prev.iter().take(8).collect::<Vec<_>>(), how, cur.iter().take(8).collect::<Vec<_>>())));
+                }
+            }
+            None => {
+                w.query_log.insert(key, (cur, how.to_string()));
+            }
+        }
+    }
+    for (p, o, m) in v {
+        if o == "recall" {
+            w.viol_sig(&p, o, recall_sig, m, i);
+        } else if o == "filter-adds-hit" {
+            w.viol_sig(&p, o, filter_sig, m, i);
+        } else if p.contains(&"C16") {
+            w.viol_sig(&p, o, page_sig, m, i);
+        } else {
+            w.viol(&p, o, m, i);
+        }
+    }
+    (true, false, None)
+}
+
+fn exec_timeline(w: &mut World, mem: &mut Memvid, i: usize, spec: &TimelineSpec) -> (bool, bool, Option<String>) {
+    let model = w.model.clone();
+    let mut v: Vec<(Vec<&'static str>, &'static str, String)> = Vec::new();
+    let mut q = TimelineQuery::default();
+    q.limit = spec.limit.and_then(std::num::NonZeroU64::new);
+    q.since = spec.since;
+    q.until = spec.until;
+    q.reverse = spec.reverse;
+    let got = match mem.timeline(q) {
+        Ok(g) => g,
+        Err(e) => {
+            w.viol(&["C15"], "timeline-runs", format!("timeline failed: {}", errs(&e)), i);
+            return (false, false, Some(errs(&e)));
+        }
+    };
+    w.probes_extra("timelines", 1);
+    if model.unpredictable {
+        return (true, false, None);
+    }
+    // expected: active committed frames that are documents (role 0) or extracted images (role 2),
+    // ordered by (timestamp, id)
+    let mut exp: Vec<(i64, u64)> = model.frames.iter().filter(|f| f.st == St::Active && f.role != 1 && f.ts.is_some()).map(|f| (f.ts.unwrap(), f.id)).collect();
+    let all_ts_known = model.frames.iter().filter(|f| f.st == St::Active && f.role != 1).all(|f| f.ts.is_some());
+    if !all_ts_known {
+        return (true, false, None);
+    }
+    exp.sort();
+    exp.retain(|(t, _)| spec.since.is_none_or(|s| *t >= s) && spec.until.is_none_or(|u| *t <= u));
+    if spec.reverse {
+        exp.reverse();
+    }
+    if let Some(l) = spec.limit {
+        if l > 0 {
+            exp.truncate(l as usize);
+        }
+    }
+    let gotk: Vec<(i64, u64)> = got.iter().map(|e| (e.timestamp, e.frame_id)).collect();
+    if gotk != exp {
+        let has_images = model.frames.iter().any(|f| f.st == St::Active && f.role == 2);
+        let d = gotk.iter().zip(exp.iter()).position(|(a, b)| a != b).unwrap_or(gotk.len().min(exp.len()));
+        let sig = if has_images { "with-extracted-images" } else { "" };
+        let mut props = vec!["C15"];
+        if gotk.iter().any(|(_, id)| model.frames.get(*id as usize).is_some_and(|f| f.st != St::Active)) {
+            props.push("C08");
+        }
+        w.viol_sig(&props, "timeline-equals-model", sig, format!("timeline({:?}) returned {} entries, model expects {}; first difference at {d}: got {:?}, expected {:?}", spec, gotk.len(), exp.len(), gotk.get(d), exp.get(d)), i);
+    }
+    for (p, o, m) in v.drain(..) {
+        w.viol(&p, o, m, i);
+    }
+    (true, false, None)
+}
+
+fn l2(a: &[f32], b: &[f32]) -> f64 {
+    a.iter().zip(b.iter()).map(|(x, y)| ((*x as f64) - (*y as f64)).powi(2)).sum::<f64>().sqrt()
+}
+
+fn exec_vec(w: &mut World, mem: &mut Memvid, i: usize, q: &[f32], k: usize) -> (bool, bool, Option<String>) {
+    let model = w.model.clone();
+    let ro = w.ro;
+    let r = mem.search_vec(q, k);
+    w.probes_extra("vec_searches", 1);
+    if model.unpredictable || !model.pending.is_empty() {
+        return (r.is_ok(), false, None);
+    }
+    // the model's active embedded set
+    let emb: Vec<(u64, &Vec<f32>)> = model.frames.iter().filter(|f| f.st == St::Active).filter_map(|f| f.emb.as_ref().map(|e| (f.id, e))).collect();
+    let dim = model.vec_dim;
+    match r {
+        Err(e) => {
+            let dim_mismatch = dim.is_some_and(|d| d as usize != q.len());
+            if !dim_mismatch && dim.is_some() && !emb.is_empty() {
+                w.viol(&["C13"], "vec-search-runs", format!("search_vec failed on a {}-vector index with a {}-dim query: {}", emb.len(), q.len(), errs(&e)), i);
+            }
+            (false, false, Some(errs(&e)))
+        }
+        Ok(hits) => {
+            if let Some(d) = dim {
+                if d as usize != q.len() && !emb.is_empty() {
+                    w.viol(&["C13"], "dimension-rejected", format!("query of dimension {} accepted by an index of dimension {d}", q.len()), i);
+                    return (true, false, None);
+                }
+            }
+            w.probes_extra("vec_searches_checked", 1);
+            // C14 / C08: membership
+            for h in &hits {
+                match model.frames.get(h.frame_id as usize) {
+                    Some(f) if f.st == St::Active && f.emb.is_some() => {}
+                    Some(f) if f.st != St::Active => w.viol(&["C14", "C08"], "vec-hit-active", format!("vector hit names frame {} which is {:?}", h.frame_id, f.st), i),
+                    Some(_) => w.viol(&["C14"], "vec-hit-embedded", format!("vector hit names frame {} which was never given an embedding", h.frame_id), i),
+                    None => w.viol(&["C14"], "vec-hit-exists", format!("vector hit names unknown frame {}", h.frame_id), i),
+                }
+            }
+            let m = emb.len();
+            if hits.len() != k.min(m) {
+                w.viol(&["C13", "C14"], "vec-hit-count", format!("search_vec(k={k}) returned {} hits over {m} active embedded frames", hits.len()), i);
+            }
+            // ordering
+            for p in hits.windows(2) {
+                if p[1].distance < p[0].distance {
+                    w.viol(&["C13"], "vec-order", format!("distances not non-decreasing: {} then {}", p[0].distance, p[1].distance), i);
+                    break;
+                }
+            }
+            // exactness: no omitted frame strictly closer than the last hit (f64 brute force)
+            if let Some(last) = hits.last() {
+                let got: BTreeSet<u64> = hits.iter().map(|h| h.frame_id).collect();
+                let last_d = emb.iter().find(|(id, _)| *id == last.frame_id).map(|(_, e)| l2(e, q));
+                if let Some(ld) = last_d {
+                    for (id, e) in &emb {
+                        if !got.contains(id) {
+                            let d = l2(e, q);
+                            if d < ld * (1.0 - 1e-4) - 1e-6 {
+                                w.viol(&["C13"], "vec-exact-nn", format!("frame {id} at distance {d:.6} omitted while frame {} at {ld:.6} was returned", last.frame_id), i);
+                                break;
+                            }
+                        }
+                    }
+                }
+                // reported distances agree with the embeddings given
+                for h in hits.iter().take(5) {
+                    if let Some((_, e)) = emb.iter().find(|(id, _)| *id == h.frame_id) {
+                        let d = l2(e, q);
+                        if ((h.distance as f64) - d).abs() > 1e-3 * (1.0 + d) {
+                            w.viol(&["C14"], "vec-embedding-as-given", format!("frame {} reported distance {} but its given embedding is at {d:.6}", h.frame_id, h.distance), i);
+                            break;
+                        }
+                    }
+                }
+            }
+            // C28 differential
+            let key = format!("{}|vec|{:?}|{k}", model.digest(), q.iter().map(|x| x.to_bits()).collect::<Vec<_>>());
+            let cur: Vec<HitKey> = hits.iter().map(|h| (h.frame_id, (h.distance.to_bits() as usize, 0))).collect();
+            let how = if ro { "read-only" } else if w.reopened_since_mutation { "reopened" } else { "live" };
+            match w.query_log.get(&key).cloned() {
+                Some((prev, ph)) => {
+                    w.probes_extra("differential_compares", 1);
+                    // compare up to distance ties: the multiset of distances and the id sets per distance
+                    let norm = |v: &Vec<HitKey>| {
+                        let mut x = v.clone();
+                        x.sort_by_key(|k| (k.1 .0, k.0));
+                        x
+                    };
+                    if norm(&prev) != norm(&cur) {
+                        w.viol(&["C28", "C13"], "vec-same-answer-across-handles", format!("search_vec differs between {ph} and {how} handle: {:?} vs {:?}", prev.iter().map(|k| k.0).collect::<Vec<_>>(), cur.iter().map(|k| k.0).collect::<Vec<_>>()), i);
+                    }
+                }
+                None => {
+                    w.query_log.insert(key, (cur, how.to_string()));
+                }
+            }
+            (true, false, None)
+        }
+    }
+}
+
+/// C14: full membership check of the vector index against the model (committed state).
+pub fn check_vec_membership(w: &mut World, i: usize, at: &str) {
+    let model = w.model.clone();
+    if model.unpredictable || !model.pending.is_empty() || w.mem.is_none() {
+        return;
+    }
+    let Some(dim) = model.vec_dim else { return };
+    let mut memv = w.mem.take().unwrap();
+    let mem = &mut memv;
+    let emb: BTreeMap<u64, Vec<f32>> = model.frames.iter().filter(|f| f.st == St::Active).filter_map(|f| f.emb.clone().map(|e| (f.id, e))).collect();
+    let q = vec![0.0f32; dim as usize];
+    let mut out: Vec<(Vec<&'static str>, &'static str, String)> = Vec::new();
+    match mem.search_vec(&q, model.frames.len() + 5) {
+        Ok(hits) => {
+            let got: BTreeSet<u64> = hits.iter().map(|h| h.frame_id).collect();
+            let exp: BTreeSet<u64> = emb.keys().copied().collect();
+            if got != exp {
+                let missing: Vec<&u64> = exp.difference(&got).take(6).collect();
+                let extra: Vec<&u64> = got.difference(&exp).take(6).collect();
+                out.push((vec!["C14"], "vec-membership", format!("[{at}] vector index members differ from the active embedded frames: missing {:?}, extra {:?}", missing, extra)));
+            }
+        }
+        Err(e) => {
+            if !emb.is_empty() {
+                out.push((vec!["C14"], "vec-membership", format!("[{at}] search_vec failed: {}", errs(&e))));
+            }
+        }
+    }
+    for (id, e) in emb.iter().take(40) {
+        match mem.frame_embedding(*id) {
+            Ok(Some(g)) => {
+                if &g != e {
+                    out.push((vec!["C14"], "vec-embedding-as-given", format!("[{at}] frame {id} embedding differs from the one given")));
+                }
+            }
+            Ok(None) => out.push((vec!["C14"], "vec-embedding-present", format!("[{at}] frame {id} has no embedding in the index"))),
+            Err(e) => out.push((vec!["C14"], "vec-embedding-present", format!("[{at}] frame_embedding({id}) failed: {}", errs(&e)))),
+        }
+    }
+    if let Ok(st) = mem.stats() {
+        if st.vector_count != emb.len() as u64 && !emb.is_empty() {
+            out.push((vec!["C14"], "vector-count", format!("[{at}] stats.vector_count={} but {} active frames were given embeddings", st.vector_count, emb.len())));
+        }
+    }
+    w.mem = Some(memv);
+    w.probes_extra("vec_membership_checks", 1);
+    for (p, o, m) in out {
+        w.viol(&p, o, m, i);
+    }
 }
